@@ -87,6 +87,10 @@ func newC18Server() *c18Server {
 		if st.Mode == "delayed" {
 			time.Sleep(15 * time.Millisecond)
 		}
+		if st.Mode == "nobody" {
+			w.WriteHeader(st.Status) // a response without any body (http.NoBody on the client side)
+			return
+		}
 		if st.RetryAfter != "" {
 			w.Header().Set("Retry-After", st.RetryAfter)
 		}
@@ -158,7 +162,7 @@ func genC18(r *rand.Rand) c18Case {
 	cs := c18Case{Entry: vk.Pick(r, "roundtripper", "request"), Method: vk.Pick(r, "GET", "POST", "PUT"),
 		BodyKind: vk.Pick(r, "nil", "nobody", "buffer", "bytesreader", "stringsreader", "file", "plain", "empty"),
 		BodySize: vk.Pick(r, 0, 1, 4096, 1<<20), ReqCtx: vk.Pick(r, "background", "background", "todo", "cancel", "value", "deadline"),
-		ExecCtx: vk.Pick(r, "none", "none", "cancel", "value"), Stack: vk.Pick(r, "retry", "retry", "retry", "none", "timeout", "retry>timeout", "timeout>retry", "hedge", "retry>hedge", "breaker>retry", "fallback>retry", "retry>breaker")}
+		ExecCtx: vk.Pick(r, "none", "none", "cancel", "value"), Stack: vk.Pick(r, "retry", "retry", "retry", "none", "timeout", "retry>timeout", "timeout>retry", "hedge", "retry>hedge", "breaker>retry", "fallback>retry", "retry>breaker", "retryb", "retryb", "timeout>retryb")}
 	if cs.BodyKind == "nil" || cs.BodyKind == "nobody" || cs.BodyKind == "empty" {
 		cs.BodySize = 0
 	} else if cs.BodySize == 0 {
@@ -268,6 +272,8 @@ func c18Stack(stack string) []failsafe.Policy[*http.Response] {
 		switch p {
 		case "retry":
 			pols = append(pols, failsafehttp.RetryPolicyBuilder().WithMaxRetries(2).Build())
+		case "retryb": // with a backoff whose max delay is far below a Retry-After of 1s: the header still wins
+			pols = append(pols, failsafehttp.RetryPolicyBuilder().WithMaxRetries(2).WithBackoff(2*time.Millisecond, 20*time.Millisecond).Build())
 		case "timeout":
 			pols = append(pols, timeout.With[*http.Response](20*time.Second))
 		case "hedge":
